@@ -115,7 +115,14 @@ type world struct {
 	policy int     // which extra edges ResolveEdges returns beyond the required window
 	r      *rng.R
 	calls  []sexp.Node
+	// a misbehaving application (not part of C09's statement; exercised so that the model's error
+	// paths stay tied to the code): the edge getter fails (1: returns an error, 2: returns a
+	// promise that delivers an error), ResolveTotalCount fails
+	fail       int
+	totalFails bool
 }
+
+var errApp = fmt.Errorf("the application failed")
 
 var cur *world
 
@@ -175,11 +182,17 @@ func getAPI(k apiKey) *apifu.API {
 	if a, ok := apis[k]; ok {
 		return a
 	}
-	deliver := func(ctx graphql.FieldContext, v interface{}) interface{} {
-		if k.promise {
-			return apifu.Go(ctx.Context, func() (interface{}, error) { return v, nil })
+	deliver := func(ctx graphql.FieldContext, v interface{}) (interface{}, error) {
+		switch cur.fail {
+		case 1:
+			return nil, errApp
+		case 2:
+			return apifu.Go(ctx.Context, func() (interface{}, error) { return nil, errApp }), nil
 		}
-		return v
+		if k.promise {
+			return apifu.Go(ctx.Context, func() (interface{}, error) { return v, nil }), nil
+		}
+		return v, nil
 	}
 	cc := &apifu.ConnectionConfig{
 		NamePrefix: "Thing",
@@ -196,15 +209,20 @@ func getAPI(k apiKey) *apifu.API {
 	}
 	if k.all {
 		cc.ResolveAllEdges = func(ctx graphql.FieldContext) (interface{}, func(a, b interface{}) bool, error) {
-			return deliver(ctx, append([]edgeT(nil), cur.edges...)), keyLess, nil
+			v, err := deliver(ctx, append([]edgeT(nil), cur.edges...))
+			return v, keyLess, err
 		}
 	} else {
 		cc.ResolveEdges = func(ctx graphql.FieldContext, after, before interface{}, limit int) (interface{}, func(a, b interface{}) bool, error) {
 			win := cur.window(after, before, limit)
 			cur.calls = append(cur.calls, sexp.L(optKeySexp(after), optKeySexp(before), sexp.Int(limit), edgesSexp(win)))
-			return deliver(ctx, win), keyLess, nil
+			v, err := deliver(ctx, win)
+			return v, keyLess, err
 		}
 		cc.ResolveTotalCount = func(ctx graphql.FieldContext) (interface{}, error) {
+			if cur.totalFails {
+				return nil, errApp
+			}
 			return len(cur.edges), nil
 		}
 	}
@@ -446,9 +464,11 @@ func cursorTable(kind string, emitted []string) sexp.Node {
 }
 
 type setup struct {
-	key    apiKey
-	edges  []edgeT
-	policy int
+	key        apiKey
+	edges      []edgeT
+	policy     int
+	fail       int
+	totalFails bool
 }
 
 func (s setup) header() []sexp.Node {
@@ -459,7 +479,12 @@ func (s setup) header() []sexp.Node {
 	return []sexp.Node{
 		sexp.T("kind", sexp.Sym(s.key.kind)), sexp.T("mode", sexp.Sym(mode)), sexp.T("promise", sexp.Bool(s.key.promise)),
 		sexp.T("edges", edgesSexp(s.edges)), sexp.T("total", sexp.Int(len(s.edges))),
+		sexp.T("app-fails", sexp.Sym([]string{"no", "sync", "async"}[s.fail]), sexp.Bool(s.totalFails)),
 	}
+}
+
+func (s setup) world(r *rng.R) *world {
+	return &world{edges: s.edges, policy: s.policy, r: r, fail: s.fail, totalFails: s.totalFails}
 }
 
 func reqFields(q request, calls []sexp.Node, o observed) []sexp.Node {
@@ -474,7 +499,7 @@ func reqFields(q request, calls []sexp.Node, o observed) []sexp.Node {
 
 func connCase(s setup, q request, r *rng.R) sexp.Node {
 	api := getAPI(s.key)
-	cur = &world{edges: s.edges, policy: s.policy, r: r}
+	cur = s.world(r)
 	o := serve(api, q)
 	fields := append(s.header(), reqFields(q, cur.calls, o)...)
 	fields = append(fields, sexp.T("cursors", cursorTable(s.key.kind, o.emitted)))
@@ -493,7 +518,7 @@ func walkCase(s setup, forward bool, n int, r *rng.R) sexp.Node {
 		} else {
 			q.last, q.before = val(n), cursor
 		}
-		cur = &world{edges: s.edges, policy: s.policy, r: r}
+		cur = s.world(r)
 		o := serve(api, q)
 		emitted = append(emitted, o.emitted...)
 		steps = append(steps, sexp.T("step", reqFields(q, cur.calls, o)...))
@@ -1014,7 +1039,7 @@ func main() {
 		// ---- 5. random streams
 		nRandom, nHostileConn, nDecode, nWalk, nDirect := 2500, 1500, 4000, 150, 1500
 		if h.Thorough() {
-			nRandom, nHostileConn, nDecode, nWalk, nDirect = 60000, 40000, 150000, 4000, 40000
+			nRandom, nHostileConn, nDecode, nWalk, nDirect = 100000, 60000, 250000, 6000, 60000
 		}
 		kinds := []string{"int", "str"}
 		for i := 0; i < nRandom; i++ {
@@ -1028,6 +1053,50 @@ func main() {
 					q.sel = rng.Pick(r, selections)
 				}
 				return connCase(setup{key: key, edges: es, policy: r.Intn(5)}, q, r)
+			})
+		}
+		nFail := 400
+		if h.Thorough() {
+			nFail = 8000
+		}
+		for i := 0; i < nFail; i++ {
+			key := allKeys("int")[i%4]
+			h.Case(func(r *rng.R) sexp.Node {
+				es := randomSet(r, "int", 5)
+				q := request{sel: rng.Pick(r, selections)}
+				if r.Bool() {
+					q.first = val(r.Intn(len(es) + 2))
+				} else {
+					q.last = val(r.Intn(len(es) + 2))
+				}
+				if r.Chance(1, 3) {
+					q.after = randomCursorArg(r, "int", es)
+				}
+				s := setup{key: key, edges: es, policy: r.Intn(5)}
+				switch r.Intn(4) {
+				case 0:
+					s.fail = 1
+				case 1:
+					s.fail = 2
+				case 2:
+					s.totalFails = true
+				default:
+					s.fail, s.totalFails = 1+r.Intn(2), true
+				}
+				// A promise that fails beneath the non-null pageInfo / totalCount fields of the lazy
+				// zero-edge path runs into the executor's dropped-error defect (DESIGN section 6
+				// row 2, owned by C02/C03: {"connection":{"":null}} without an error).  What the
+				// executor makes of a failed promise is not part of this model, so asynchronous
+				// failures are only generated where the connection field itself is the promise.
+				if s.fail == 2 {
+					if q.first.mode == 2 && q.first.val == 0 {
+						q.first.val = 1
+					}
+					if q.last.mode == 2 && q.last.val == 0 {
+						q.last.val = 1
+					}
+				}
+				return connCase(s, q, r)
 			})
 		}
 		for i := 0; i < nHostileConn; i++ {
